@@ -356,6 +356,14 @@ func runCase(c Case, o *vh.Obs) *vh.Failure {
 		for _, name := range names {
 			a1, s1 := renderWatched(inst, name)
 			a1b, s1b := renderWatched(inst, name)
+			if s1 == s1b && s1 != "timeout" && s1 != "ok" {
+				// a producer that fails deterministically must fail the same way after the reload
+				if _, s2 := renderWatched(inst2, name); s2 != s1 && s2 != "timeout" {
+					return vh.Failf("artifact-outcome-differs", "step %d: artifact %q fails in the original graph (%s) but the reloaded graph answers %s", step, name, s1, s2)
+				}
+				o.Count("artifact-failures-compared/"+strings.SplitN(s1, ":", 2)[0], 1)
+				continue
+			}
 			if s1 != "ok" || s1b != "ok" || a1 != a1b {
 				o.Count("artifact-skipped/"+s1, 1)
 				continue
